@@ -143,16 +143,16 @@ void VersionedMap<KeyT, ValueT>::storeCommand(const Command& command)
 template <class KeyT, class ValueT>
 void VersionedMap<KeyT, ValueT>::applyRevision(uint32_t revision)
 {
+    // Collect (the index of) the command that created each revision in the
+    // chain from the requested revision back to the initial (empty) one.
     std::vector<uint32_t> ordered;
     auto it = reverts_.find(revision);
     while (it != reverts_.end()) {
-        ordered.push_back(it->second);
+        ordered.push_back(it->first - 1);
         it = reverts_.find(it->second);
     }
 
     curRevision_ = revision;
-    if (ordered.empty())
-        return; // Nothing to do.
 
     std::reverse(ordered.begin(), ordered.end());
     map_.clear();
